@@ -90,6 +90,7 @@ func (rs *rowSync) waitFor(y int, needed int32) {
 	if r.done.Load() >= needed {
 		return
 	}
+	verifSched(verifEvSlowWait, nil, y, int(needed))
 	r.waiters.Add(1)
 	r.mu.Lock()
 	for r.done.Load() < needed {
@@ -226,6 +227,7 @@ func (enc *VP8Encoder) encodeFrameParallel(stats *ProbaStats) {
 			defer wg.Done()
 			for {
 				y := int(ps.nextRow.Add(1) - 1)
+				verifSched(verifEvClaim, w, y, 0)
 				if y >= mbH {
 					return
 				}
@@ -305,6 +307,7 @@ func (enc *VP8Encoder) encodeRow(w *RowWorker, y int, topY, topU, topV, topModes
 			}
 			rs.waitFor(y-1, waitX)
 		}
+		verifSched(verifEvProc, w, y, x)
 
 		// 1. Import source data.
 		importBlockParallel(enc, w, x, y)
@@ -331,6 +334,7 @@ func (enc *VP8Encoder) encodeRow(w *RowWorker, y int, topY, topU, topV, topModes
 		updateNZContextParallel(info, x, topNz, &leftNz, topNzDC, &leftNzDC)
 
 		// 9. Signal completion.
+		verifSched(verifEvSignal, w, y, x)
 		rs.signal(y, int32(x+1))
 	}
 }
@@ -1544,6 +1548,7 @@ func (enc *VP8Encoder) recordAllTokens(stats *ProbaStats) {
 			// Phase A workers still processing later rows.
 			if enc.parallelRS != nil {
 				enc.parallelRS.waitFor(it.Y, int32(enc.mbW))
+				verifSched(verifEvRecord, nil, it.Y, 0)
 			}
 			enc.leftNz = 0
 			enc.leftNzDC = 0
